@@ -150,6 +150,9 @@ structure Inv (c : Cfg) (s : State) : Prop where
   resHeld : ∀ t, kindOf c t = Kind.res → s.held t = 0
   aProg : ∀ t, postCtor (s.pc t) = true → s.constructed = true
   aPre : s.constructed = false → ∀ t, t < c.n → kindOf c t = Kind.handle → (s.pc t = Pc.hStart ∨ s.pc t = Pc.hGate)
+  ctorPc : s.constructed = false → isCtor (s.pc 0) = true
+  pubPc : s.published = false → c.mode.hasPromise = true → ∀ is, s.pc 0 = Pc.cRun is → CI.loadTmp ∈ is
+  pubCtor : s.published = false → c.mode.hasPromise = true → isCtor (s.pc 0) = true
 
 macro "inv_facts" h:ident : tactic => `(tactic| (
   have := ($h).pcok
@@ -190,7 +193,10 @@ macro "inv_facts" h:ident : tactic => `(tactic| (
   have := ($h).wokenReady
   have := ($h).resHeld
   have := ($h).aProg
-  have := ($h).aPre))
+  have := ($h).aPre
+  have := ($h).ctorPc
+  have := ($h).pubPc
+  have := ($h).pubCtor))
 
 macro "inv_auto" h:ident : tactic => `(tactic| (
   constructor
@@ -232,7 +238,10 @@ macro "inv_auto" h:ident : tactic => `(tactic| (
   case wokenReady => first | exact ($h).wokenReady | (have := ($h).wokenReady; grind [upd, pcOK, preClaim, preResolve, isCtor, inflight, ownsCtx, postCtor]) | (inv_facts $h; grind [upd, pcOK, preClaim, preResolve, isCtor, inflight, ownsCtx, postCtor]) | fail "clause wokenReady"
   case resHeld => first | exact ($h).resHeld | (have := ($h).resHeld; grind [upd, pcOK, preClaim, preResolve, isCtor, inflight, ownsCtx, postCtor]) | (inv_facts $h; grind [upd, pcOK, preClaim, preResolve, isCtor, inflight, ownsCtx, postCtor]) | fail "clause resHeld"
   case aProg => first | exact ($h).aProg | (have := ($h).aProg; grind [upd, pcOK, preClaim, preResolve, isCtor, inflight, ownsCtx, postCtor]) | (inv_facts $h; grind [upd, pcOK, preClaim, preResolve, isCtor, inflight, ownsCtx, postCtor]) | fail "clause aProg"
-  case aPre => first | exact ($h).aPre | (have := ($h).aPre; grind [upd, pcOK, preClaim, preResolve, isCtor, inflight, ownsCtx, postCtor]) | (inv_facts $h; grind [upd, pcOK, preClaim, preResolve, isCtor, inflight, ownsCtx, postCtor]) | fail "clause aPre"))
+  case aPre => first | exact ($h).aPre | (have := ($h).aPre; grind [upd, pcOK, preClaim, preResolve, isCtor, inflight, ownsCtx, postCtor]) | (inv_facts $h; grind [upd, pcOK, preClaim, preResolve, isCtor, inflight, ownsCtx, postCtor]) | fail "clause aPre"
+  case ctorPc => first | exact ($h).ctorPc | (have := ($h).ctorPc; grind [upd, pcOK, preClaim, preResolve, isCtor, inflight, ownsCtx, postCtor]) | (inv_facts $h; grind [upd, pcOK, preClaim, preResolve, isCtor, inflight, ownsCtx, postCtor]) | fail "clause ctorPc"
+  case pubPc => first | exact ($h).pubPc | (have := ($h).pubPc; grind [upd, pcOK, preClaim, preResolve, isCtor, inflight, ownsCtx, postCtor]) | (inv_facts $h; grind [upd, pcOK, preClaim, preResolve, isCtor, inflight, ownsCtx, postCtor]) | fail "clause pubPc"
+  case pubCtor => first | exact ($h).pubCtor | (have := ($h).pubCtor; grind [upd, pcOK, preClaim, preResolve, isCtor, inflight, ownsCtx, postCtor]) | (inv_facts $h; grind [upd, pcOK, preClaim, preResolve, isCtor, inflight, ownsCtx, postCtor]) | fail "clause pubCtor"))
 
 variable {c : Cfg} {s : State} {t : Nat}
 
@@ -370,6 +379,16 @@ theorem inv_init (c : Cfg) (h : Fixed c) (hn : 0 < c.n) : Inv c (init c) := by
       refine ⟨by simp [init], rfl, by omega, fun _ => rfl, fun _ _ => hs, ?_⟩
       unfold Cfg.script
       cases hm : c.mode <;> simp [Mode.hasPromise]
+    · rw [h1.1] at hq; cases hq
+    · rw [h1.1] at hq; cases hq
+  case pubPc =>
+    intro _ hpm is hq
+    rcases hc 0 with h1 | h1 | h1 | h1
+    · exact absurd hn h1.2
+    · rw [h1.1] at hq
+      cases hq
+      unfold Cfg.script
+      cases hm : c.mode <;> simp_all [Mode.hasPromise, h.2]
     · rw [h1.1] at hq; cases hq
     · rw [h1.1] at hq; cases hq
   case wake =>
